@@ -53,7 +53,7 @@ def cases(tier, seed):
                 out.append(dict(film=f, holes="circle", terminals=2, mel=mel, min_points=mp, smooth=sm, xi=xi))
         # histories: the checked mesh is not the first one made for the device object
         for f in ("box33", "tee", "notched"):
-            for hist in ("remesh_finer", "remesh_coarser", "translated_inplace"):
+            for hist in ("remesh_finer", "remesh_coarser", "translated_inplace", "copy_translated", "translation_context"):
                 out.append(dict(film=f, holes="circle", terminals=2, mel=0.8, min_points=None, smooth=0, xi=1.0, history=hist))
     else:
         # terminals do not influence the mesh: the settings sweep is run with terminals, the no-terminal devices once
@@ -140,6 +140,19 @@ def run_case(case):
         if hist == "translated_inplace":
             _ = dev.terminal_info(), dev.points, dev.triangulation
             dev.translate(dx=1.7, dy=-0.9, inplace=True)
+        if hist == "copy_translated":
+            # another holder of the same device (Device.copy(), as kept by every Solution) is moved; the checked one is the original.
+            # (copy.copy(device) is a plain shallow copy that shares the polygons themselves: moving it moves the original's outlines
+            # by Python's own semantics, so it is not part of this history.)
+            other = dev.copy()
+            other.translate(dx=1.7, dy=-0.9, inplace=True)
+            _ = other.points, other.mesh.areas.sum()
+        if hist == "translation_context":
+            # moved and moved back by the documented context manager; a copy was taken while it was moved
+            with dev.translation(1.7, -0.9):
+                inner = dev.copy()
+                _ = inner.points
+            inner.translate(dx=0.4, dy=0.3, inplace=True)
     except ValueError as exc:
         if "Malformed Voronoi cell" in str(exc):
             # the library refuses to build a dual mesh for this triangulation (documented advice: resample the outline)
